@@ -259,6 +259,15 @@ func c17Run(c *Ctx, cs c17Case, args []reflect.Value, diff *c17Diff, count bool)
 		c.Violation("panic:"+cs.Recv+"."+cs.Method+":"+cs.State, desc+" panicked: "+p, cs, len(desc))
 		return
 	}
+	if cs.Recv == "Condition" && cs.Method == "Init" {
+		// Init's purpose is to initialise: whatever the receiver was before (zero, freed, or set up with
+		// options and closures only), afterwards it is what Init makes of a zero value
+		var fresh stackage.Condition
+		fresh.Init()
+		if got, want := stackage.VerifDump(pv.Elem().Interface()).Key(false), stackage.VerifDump(fresh).Key(false); got != want {
+			c.Violation("Init:not-a-fresh-instance:"+cs.State, fmt.Sprintf("%s left an instance that differs from a newly initialised one:\n got  %s\n want %s", desc, got, want), cs, len(desc))
+		}
+	}
 	if cs.Recv == "Auxiliary" || strings.HasPrefix(cs.State, "init-only") {
 		if count {
 			c.Outcome(cs.Recv + cs.Method)
